@@ -418,10 +418,27 @@ def _comment_test_rule(ctx, res) -> None:
     # the test proper may live in a private helper of the method (a function of the module handed the text and the offsets)
     searches = [c for g in with_private_helpers(idx, m) for c in calls_in(g.node)
                 if isinstance(c.func, ast.Attribute) and c.func.attr in ("index", "find", "rindex", "rfind") and c.args and const_str(c.args[0]) == "#"]
+    # ... or through a helper that is handed the character: `self._last_index("#", start, offset)` with `rindex(char, ...)` inside
+    via = {}
+    for g in with_private_helpers(idx, m):
+        for c in calls_in(g.node):
+            if is_self_attr(c.func) and any(const_str(a) == "#" for a in c.args):
+                h = src.methods.get(c.func.attr)
+                if h is None:
+                    continue
+                j = next(i for i, a in enumerate(c.args) if const_str(a) == "#")
+                hp = [a.arg for a in h.node.args.args][1:]
+                if j >= len(hp):
+                    continue
+                inner = [x for x in calls_in(h.node) if isinstance(x.func, ast.Attribute) and x.func.attr in ("index", "find", "rindex", "rfind")
+                         and x.args and isinstance(x.args[0], ast.Name) and x.args[0].id == hp[j]]
+                for x in inner:
+                    searches.append(c)
+                    via[id(c)] = x.func.attr
     if not searches:
         raise AnalysisError("anchor=_Source._good_token: no search for '#'")
     for k, c in enumerate(searches, 1):
-        ok = c.func.attr in ("rindex", "rfind")
+        ok = via.get(id(c), c.func.attr) in ("rindex", "rfind")
         res.add("R08.12", f"_Source.{m.name}|last-hash-decides#{k}", ok, f"{m.unit.rel}:{c.lineno}",
                 "the comment test looks at the last `#` before the token" if ok else
                 f"`{ast.unparse(c)[:60]}` finds the FIRST `#` between the cursor and the token: when an earlier comment line lies in between, the line break after it makes a "
